@@ -4,6 +4,9 @@ CONSTANTS
   BankNames = {"B1", "B2"}
   Amounts = {1, 7, 1000003, 40000000}
   Ticks = {1, 3600, 31536000}
+  LiqTriples <- NoTuples
+  Prices <- NoTuples
+  BkCases <- NoTuples
   MaxDepth = 4
 VIEW View
 CHECK_DEADLOCK FALSE
